@@ -69,6 +69,7 @@ class SmallEval:
         self.methods = methods or {}
         self.local_fns = local_fns      # name -> syntactic fn node: private helpers that may be folded as well
         self.local_methods = {}         # name -> syntactic fn node with a `self` receiver (set by the rule)
+        self.const_nodes = {}           # name -> expression node of a const item (evaluated on demand)
         self._depth = 0
         self.cov = set()                # (id(node), outcome): branches taken so far, over all folds of this evaluator
         self.entered = {}               # id(fn node) -> fn node: every function whose body was evaluated
@@ -143,6 +144,14 @@ class SmallEval:
                 return env[p]
             if p in self.consts:
                 return self.consts[p]
+            if self.const_nodes:
+                node = self.const_nodes.get(p) or self.const_nodes.get(p.split("::")[-1])
+                if node is not None and self._depth < 4:
+                    self._depth += 1
+                    try:
+                        return self.ev(node, Scope(None, {}))
+                    finally:
+                        self._depth -= 1
             if p == "None":
                 return None
             if p in ("true", "false"):
@@ -303,6 +312,12 @@ class SmallEval:
                 fn_ = self.funcs.get(name) or self.funcs.get(last)
                 if fn_ is not None:
                     return fn_(*args)
+                if "::" in name and (name.split("::")[-2], last) in self.local_methods and self._depth < 4:
+                    self._depth += 1
+                    try:
+                        return self.call(self.local_methods[(name.split("::")[-2], last)], args)
+                    finally:
+                        self._depth -= 1
                 if self.local_fns is not None and "::" not in name and name in self.local_fns and self._depth < 4:
                     self._depth += 1
                     try:
@@ -351,6 +366,47 @@ class SmallEval:
                 else:
                     raise NoEval(f"argument of .{m}()")
                 return r if m == "and_then" else (recv[0], r)
+            if isinstance(recv, dict) and (recv.get("__struct__"), m) in self.local_methods and self._depth < 4:
+                fn_ = self.local_methods[(recv.get("__struct__"), m)]
+                self._depth += 1
+                try:
+                    return self.call(fn_, [recv] + [self.ev(a, env) for a in args])
+                finally:
+                    self._depth -= 1
+            if isinstance(recv, str) and not recv.startswith(("Token::", "Core::", "Side::", "CoreFunOp::")) or (isinstance(recv, tuple) and recv and recv[0] == "text"):
+                text = recv[1] if isinstance(recv, tuple) else recv
+                if m in ("to_string", "as_str", "to_owned", "clone", "as_ref") and not args and m not in self.methods:
+                    return ("text", text)
+                if m == "rsplit_once" and len(args) == 1:
+                    sep = self.ev(args[0], env)
+                    sep = sep[1] if isinstance(sep, tuple) else sep
+                    if sep in text:
+                        a_, b_ = text.rsplit(sep, 1)
+                        return ("Some", ("tuple", [("text", a_), ("text", b_)]))
+                    return None
+                if m == "split_once" and len(args) == 1:
+                    sep = self.ev(args[0], env)
+                    sep = sep[1] if isinstance(sep, tuple) else sep
+                    if sep in text:
+                        a_, b_ = text.split(sep, 1)
+                        return ("Some", ("tuple", [("text", a_), ("text", b_)]))
+                    return None
+                if m == "matches" and len(args) == 1:
+                    pat = self.ev(args[0], env)
+                    pat = pat[1] if isinstance(pat, tuple) else pat
+                    return ("list", [("text", pat)] * text.count(pat))
+                if m == "chars" and not args:
+                    return ("list", [("text", c_) for c_ in text])
+                if m == "lines" and not args:
+                    return ("list", [("text", l_) for l_ in text.replace("\r\n", "\n").split("\n")[: -1 if text.endswith("\n") else None]] if text else [])
+                if m == "len" and not args:
+                    return len(text.encode("utf-8"))
+                if m == "is_empty" and not args:
+                    return text == ""
+                if m in ("contains", "starts_with", "ends_with") and len(args) == 1:
+                    pat = self.ev(args[0], env)
+                    pat = pat[1] if isinstance(pat, tuple) else pat
+                    return {"contains": pat in text, "starts_with": text.startswith(pat), "ends_with": text.endswith(pat)}[m]
             if isinstance(recv, tuple) and recv and recv[0] == "map":
                 if m == "get" and len(args) == 1:
                     k_ = self.ev(args[0], env)
@@ -437,6 +493,15 @@ class SmallEval:
                         raise NoEval("extend with a non-collection")
                     recv[1].extend(o[1])
                     return ("unit",)
+                if m in ("find", "position") and len(args) == 1 and strip(args[0]).get("k") == "closure":
+                    cl = strip(args[0])
+                    for i_, x in enumerate(recv[1]):
+                        env2 = _child(env)
+                        if len(cl["params"]) != 1 or not self.bind(cl["params"][0], x, env2):
+                            raise NoEval("closure parameter")
+                        if self._bool(self.ev(cl["body"], env2)):
+                            return ("Some", x if m == "find" else i_)
+                    return None
                 if m in ("first", "last") and not args:
                     return ("Some", recv[1][0 if m == "first" else -1]) if recv[1] else None
                 if m == "map" and len(args) == 1 and strip(args[0]).get("k") == "closure":
@@ -448,7 +513,7 @@ class SmallEval:
                             raise NoEval("closure parameter")
                         out.append(self.ev(cl["body"], env2))
                     return ("list", out)
-                if m == "len" and not args:
+                if m in ("len", "count") and not args:
                     return len(recv[1])
                 if m == "is_empty" and not args:
                     return len(recv[1]) == 0
